@@ -654,7 +654,7 @@ class DisjFlow(Dataflow):
                     wl.append(succ)
         self.state_in = {bb: self._join_all(s) for bb, s in self.states.items()}
 
-    def feasible_reach(self, start, states=None, removed_nodes=(), removed_edges=()):
+    def feasible_reach(self, start, states=None, removed_nodes=(), removed_edges=(), with_states=False):
         """blocks reachable from block `start` when execution enters it in one of `states` (default: every state the global
         analysis saw there), following only edges the abstract state does not contradict. A subset of the syntactic
         reachability: `let done = matches!(x, Last); if done { return }` does not 'reach' the loop head on the Last edge."""
@@ -704,6 +704,8 @@ class DisjFlow(Dataflow):
                 if succ not in inq:
                     inq.add(succ)
                     wl.append(succ)
+        if with_states:
+            return {bb: [dict(fs) for fs in sts] for bb, sts in table.items()}
         return set(table.keys())
 
     def feasible_reach_edge(self, u, v, removed_nodes=(), removed_edges=()):
